@@ -147,12 +147,18 @@ def run_shard(ctx):
                 d["findall"] = sorted(idx.get(i, "?") for i in got_ids)
                 ctx.violation("findall-vs-match", "findall and match disagree", d)
             first = got[0] if got else None
-            f1 = xp.find(root) if hasattr(xp, "find") else None
-            f2 = root.find(text)
-            f3 = root.find(xp)
-            fa = list(root.findall(text))
-            if f2 is not first or f3 is not first or [id(x) for x in fa] != [id(x) for x in got]:
-                ctx.violation("find-frontend", "find / findall front-ends differ from ASTXpath.findall", detail)
+            try:
+                # the compiled object is used again (second search, front-ends given the object or the text)
+                again = list(xp.findall(root))
+                f2 = root.find(text)
+                f3 = root.find(xp)
+                fa = list(root.findall(text))
+                fb = list(root.findall(xp))
+            except Exception as e:  # noqa: BLE001
+                ctx.violation("find-frontend", f"a second search with the same compiled xpath / a front-end raised {type(e).__name__}: {e}", detail)
+                continue
+            if f2 is not first or f3 is not first or [id(x) for x in fa] != [id(x) for x in got] or [id(x) for x in fb] != [id(x) for x in got] or [id(x) for x in again] != [id(x) for x in got]:
+                ctx.violation("find-frontend", "find / findall front-ends (or a second search with the same compiled xpath) differ from the first ASTXpath.findall", detail)
             if exp:
                 ctx.count("nonempty")
                 if any(st[2] not in (None, "any") and st[2] >= 257 for st in path):
